@@ -240,7 +240,7 @@ func (c *Container) Decorate(decorator interface{}, opts ...DecorateOption) erro
 // Decorating a Scope affects all the child scopes of this Scope.
 //
 // Similar to a provider, the decorator function gets called *at most once*.
-func (s *Scope) Decorate(decorator interface{}, opts ...DecorateOption) error {
+func (s *Scope) Decorate(decorator interface{}, opts ...DecorateOption) (err error) {
 	dtype := reflect.TypeOf(decorator)
 	if dtype == nil {
 		return newErrInvalidInput("can't decorate with an untyped nil", nil)
@@ -256,6 +256,20 @@ func (s *Scope) Decorate(decorator interface{}, opts ...DecorateOption) error {
 	var options decorateOptions
 	for _, opt := range opts {
 		opt.apply(&options)
+	}
+
+	// Parsing the decorator's parameters adds graph nodes for its value
+	// group parameters to this scope and its descendants. Take a snapshot
+	// of their graphs so that a decorator that is rejected leaves nothing
+	// behind.
+	for _, sc := range s.appendSubscopes(nil) {
+		sc := sc
+		sc.gh.Snapshot()
+		defer func() {
+			if err != nil {
+				sc.gh.Rollback()
+			}
+		}()
 	}
 
 	dn, err := newDecoratorNode(decorator, s, options)
